@@ -30,6 +30,7 @@ def g_lex(tier, seed, **kw):
     mmax = 24 if tier == 'quick' else 47
     shapes = [(0, 0), (0, 1), (2, 2)] if tier == 'quick' else [(0, 0), (0, 1), (1, 1), (2, 2), (1, 3), (2, 0)]
     idj = [[p, m, c] for m in range(1, mmax + 1) for (p, c) in shapes]
+    kw = dict(kw, lift=True)
     gs = [grp('L-LEX/id', 'VH_lexID', idj, merge=ML, cost=12,
               bound='one scanner step on a run of m <= %d id characters at index p with c following bytes, (p,c) in %s' % (mmax, shapes),
               symbolic='all bytes of the buffer', asserts=LEX_ID_ASSERTS, **kw)]
@@ -47,7 +48,8 @@ def g_lex(tier, seed, **kw):
 
 
 def g_bytes(lmax, **kw):
-    return grp('E2E/bytes', 'VH_bytes', [[l] for l in range(0, lmax + 1)], cost=50,
+    jobs = [[l, -1] for l in range(0, min(lmax, 2) + 1)] + [[l, sh] for l in range(3, lmax + 1) for sh in range(16)]
+    return grp('E2E/bytes', 'VH_bytes', jobs, cost=50, merge=ML,
                bound='every byte string of length <= %d through ValidateLicenses, ExtractLicenses, Satisfies' % lmax, symbolic='all bytes (256 values each)',
                asserts=['flag-iff-none-invalid', 'extract-err-iff-invalid', 'satisfies-err-iff-invalid', 'false-or-nil-on-error', 'empty-list-errs'], **kw)
 
